@@ -205,6 +205,9 @@ def run_cases_inproc(mod, tier: str, seed: int, cases: list, deadline: float | N
             continue
         ctx.case = case
         _seed_everything(case_seed(seed, case))
+        # RL4COTrainer.__init__ sets the process-global float32 matmul precision to "medium" (bf16 matmuls on AMX CPUs:
+        # results then depend on the batch layout at the 3e-4 level); every case starts from full float32
+        torch.set_float32_matmul_precision("highest")
         try:
             mod.run_case(ctx, case)
         except KeyboardInterrupt:
